@@ -36,14 +36,15 @@ type Result struct {
 }
 
 type Env struct {
-	Out   string
-	Seed  int64
-	Tier  string
-	N     int
-	Args  map[string]string
-	Res   *Result
-	start time.Time
-	seen  map[string]bool
+	perKind map[string]int
+	Out     string
+	Seed    int64
+	Tier    string
+	N       int
+	Args    map[string]string
+	Res     *Result
+	start   time.Time
+	seen    map[string]bool
 }
 
 func (e *Env) count(k string) { e.Res.Distribution[k]++ }
@@ -58,8 +59,15 @@ func (e *Env) sample(s any) {
 		e.Res.Samples = append(e.Res.Samples, s)
 	}
 }
+
+// violate records a violation; at most 12 per kind are kept (a flood of one kind - e.g. a recorded finding - must not
+// crowd out violations of another kind).
 func (e *Env) violate(kind, detail string, replay any) {
-	if len(e.Res.Violations) < 50 {
+	if e.perKind == nil {
+		e.perKind = map[string]int{}
+	}
+	e.perKind[kind]++
+	if e.perKind[kind] <= 12 && len(e.Res.Violations) < 600 {
 		e.Res.Violations = append(e.Res.Violations, Violation{kind, detail, replay})
 	}
 }
